@@ -1,7 +1,9 @@
 import DaskModel.DriverLib
 import DaskModel.Model.NormalForm
+import DaskModel.Model.TaskNode
 open Dask
 open Dask.NF
+open Dask.TaskNode
 
 /-! Line-protocol driver of group `token` (C11–C15). -/
 
@@ -66,7 +68,89 @@ def hLogical : Handler := handler fun args =>
     | none => pure (.list [.sym "oob"])
   | _ => none
 
+/-! ### C11: task-spec nodes -/
+
+/-- `(lit V) (ref V) (alias V V) (data V) (task f (arg…) (("kw" node)…)) (cont list|tuple|set (arg…)) (dict ((k v)…))` -/
+partial def decNode : SExp → Option Node
+  | .list [.sym "lit", v] => do pure (.lit (← decVal v))
+  | .list [.sym "ref", v] => do pure (.ref (← decVal v))
+  | .list [.sym "alias", k, t] => do pure (.alias (← decVal k) (← decVal t))
+  | .list [.sym "data", v] => do pure (.data (← decVal v))
+  | .list [.sym "task", .int f, .list args, .list kws] => do
+    let args ← args.mapM decNode
+    let kws ← kws.mapM (fun e => match e with
+      | .list [.str k, v] => do pure (k, (← decNode v))
+      | _ => none)
+    pure (.task f.toNat args kws)
+  | .list [.sym "cont", .sym k, .list args] => do
+    let kind ← match k with
+      | "list" => some Kind.list | "tuple" => some Kind.tuple | "set" => some Kind.set | _ => none
+    pure (.cont kind (← args.mapM decNode))
+  | .list [.sym "dict", .list items] => do
+    let items ← items.mapM (fun e => match e with
+      | .list [k, v] => do pure ((← decNode k), (← decNode v))
+      | _ => none)
+    pure (.dict items)
+  | _ => none
+
+/-- `(nodepre node)` ↦ md5 pre-image of `tokenize(node)`; `(nodeclass node)` ↦ class name -/
+def hNodePre : Handler := handler fun args =>
+  match args with
+  | [n] => do pure (.str (tokenPre (← decNode n)))
+  | _ => none
+def hNodeClass : Handler := handler fun args =>
+  match args with
+  | [n] => do pure (.str (className (← decNode n)))
+  | _ => none
+
+/-- Python `set(xs)` / `dict(pairs)` keep one element per key (elements are compared by their repr here; the
+    harness never generates 1 / True / 1.0 together in this stream); the result is printed in a canonical order
+    (sorted by repr), like `canon_repr` of the harness. -/
+def dedupRepr (xs : List Val) : List Val :=
+  xs.foldl (fun acc x => if acc.any (fun y => pyRepr y == pyRepr x) then acc else acc ++ [x]) []
+/-- later items win, the position of the first occurrence is kept (Python dict semantics) -/
+def dedupKeys (kvs : List (Val × Val)) : List (Val × Val) :=
+  kvs.foldl (fun acc p =>
+    if acc.any (fun q => pyRepr q.1 == pyRepr p.1) then acc.map (fun q => if pyRepr q.1 == pyRepr p.1 then (q.1, p.2) else q)
+    else acc ++ [p]) []
+def canonSort (xs : List Val) : List Val :=
+  (ssort (xs.map (fun x => ((pyRepr x, ""), x)))).map Prod.snd
+def canonSortP (kvs : List (Val × Val)) : List (Val × Val) :=
+  (ssort (kvs.map (fun p => ((pyRepr p.1 ++ ": " ++ pyRepr p.2, ""), p)))).map Prod.snd
+
+/-- print-canonical form: set elements and dict items sorted by their repr, recursively -/
+partial def canonVal : Val → Val
+  | .list xs => .list (xs.map canonVal)
+  | .tuple xs => .tuple (xs.map canonVal)
+  | .set xs => .set (canonSort (xs.map canonVal))
+  | .dict kvs => .dict (canonSortP (kvs.map (fun p => (canonVal p.1, canonVal p.2))))
+  | v => v
+
+/-- concrete value algebra for the evaluation tie: results are Python values again; a call of function `f`
+    is recorded as the tuple `("call", f, args, sorted kwargs)` -/
+def valSem : Sem Val where
+  lit := id
+  app f args kws := .tuple [.str "call", .int f, .tuple args, .tuple (kws.map (fun p => .tuple [.str p.1, p.2]))]
+  mkList := .list
+  mkTuple := .tuple
+  mkSet := fun xs => .set (dedupRepr xs)
+  mkDict := fun kvs => .dict (dedupKeys kvs)
+
+/-- `(nodeeval node ((key value)…))` ↦ `repr` of `node(values)` (missing keys evaluate to None) -/
+def hNodeEval : Handler := handler fun args =>
+  match args with
+  | [n, .list env] => do
+    let n ← decNode n
+    let env ← env.mapM (fun e => match e with
+      | .list [k, v] => do pure ((← decVal k), (← decVal v))
+      | _ => none)
+    let look (k : Val) : Val := match env.find? (fun p => pyRepr p.1 == pyRepr k) with
+      | some p => p.2 | none => .none
+    pure (.str (pyRepr (canonVal (eval valSem look n))))
+  | _ => none
+
 def table : List (String × Handler) :=
-  [("tokpre", hTokPre), ("tokprekw", hTokPreKw), ("pyrepr", hPyRepr), ("pystr", hPyStr), ("logical", hLogical)]
+  [("nodepre", hNodePre), ("nodeclass", hNodeClass), ("nodeeval", hNodeEval),
+   ("tokpre", hTokPre), ("tokprekw", hTokPreKw), ("pyrepr", hPyRepr), ("pystr", hPyStr), ("logical", hLogical)]
 
 def main : IO Unit := runDriver table
